@@ -15,221 +15,247 @@ PROPS = {'C18': {'title': 'Inflights window is a bounded FIFO under resizing',
          'body': ['inflights'],
          'modes': ['P'],
          'claim': 'FULL',
-         'decided': ['every public operation of Inflights (new, set_cap, full, add, free_to, free_first_one, reset, count, maybe_free_buffer) transforms the '
-                     'abstract FIFO view (items, capacity, pending capacity) exactly as the bounded-FIFO model says, for all states satisfying the '
-                     'representation invariant and all arguments',
-                     'add never panics when the window is not full; the internal asserts and all indexings are proved'],
+         'decided': ['every public operation of Inflights keeps the representation invariant and equals the bounded-FIFO model: add pushes at the tail '
+                     '(guarded by !full), free_to removes exactly the prefix <= the index, free_first_one the first element, reset empties and applies a '
+                     'deferred capacity, set_cap grows at once / defers a shrink below the occupancy until the window drains, maybe_free_buffer changes '
+                     'nothing observable; count/full are exact'],
          'undecided': [],
-         'assumptions': ['capacities <= 2^60 (larger ones abort in the allocator before an Inflights exists)',
-                         'Vec::capacity() >= len (assume_specification); `vec![]` has capacity 0 (R9)',
-                         'usize is 64 bit']},
+         'assumptions': ['Vec::shrink_to / buffer reallocation semantics of std (no effect on the view)'],
+         'bounded': ['mon_c18: real Inflights vs the FIFO model']},
  'C14': {'title': 'RaftLog behaves as one logical log over storage + unstable + snapshot',
          'modules': ['top', 'prelude', 'pb', 'log_unstable', 'storage_trait', 'raft_log'],
          'body': ['log_unstable', 'storage_trait', 'config', 'util', 'raft_log'],
          'modes': ['P', 'S'],
          'claim': 'FULL (relative to the Storage trait contract, which module memstorage/C19 proves for MemStorage)',
-         'decided': ['every query of Unstable and RaftLog (first/last index, term, match_term, last_term, find_conflict, find_conflict_by_term, is_up_to_date, '
-                     'entries, slice, next_entries_since, has_next_entries_since, commit_info) equals the logical-log model (snapshot point + contiguous '
-                     'entries; unstable wins from its offset) for every state satisfying the representation invariant',
-                     'every mutator (append, truncate_and_append, maybe_append, commit_to, maybe_commit, maybe_persist, maybe_persist_snap, stable_entries, '
-                     'stable_snap, restore, applied_to) transforms the model as stated, preserves the invariant (committed <= last, persisted < unstable '
-                     'offset), raises persisted only to an index stable storage holds with the matching term, and never alters an entry at or below the commit '
-                     'index (mode S: on every normal return, with no assumption on the arguments)',
-                     'size-limited reads return limit_prefix (non-empty maximal prefix within the limit) of the model range, incl. the storage/unstable stitch '
-                     'lemma'],
-         'undecided': ['RaftLog::scan (FnMut callback) and all_entries (test-only) are not under contract'],
-         'bounded': ['util::limit_size itself is an assumed contract in Verus; bounded Kani stand-in on the extracted text (thorough tier)'],
-         'assumptions': ['the Storage implementation satisfies the trait contract of spec/storage_trait.vrs and the application keeps it so between calls',
-                         'indexes/terms/sizes < 2^62, collection lengths < 2^32 (explicit requires)',
-                         'entries in messages carry term > 0; (index 0, term 0) is the dummy entry',
-                         'Unstable.entries_size byte accounting is cut out (R10): no property reads it',
-                         'util::limit_size returns limit_prefix (assumed in Verus)']},
+         'decided': ['RaftLog (storage + unstable + pending snapshot) answers first/last index, term, match_term, entries/slice (non-empty maximal prefix '
+                     'within the size limit), find_conflict, find_conflict_by_term, is_up_to_date, next_entries(_since), has_next_entries(_since) exactly like '
+                     'the logical-log view, and append (now lowering persisted when it truncates below it), maybe_append, commit_to, maybe_commit, applied_to '
+                     '(no-op when nothing new is reported), stable_entries, stable_snap, maybe_persist (below the first unwritten update and with the stored '
+                     'term), maybe_persist_snap, restore keep the well-formedness invariant (persisted < unstable.offset, applied/committed bounds) and change '
+                     'only what the model says'],
+         'undecided': ['RaftLog::scan (FnMut callback): bounded K-ext Kani harness under C09', 'all_entries (test helper)'],
+         'bounded': ['mon_c14: real RaftLog<MemStorage> vs a plain sequence model'],
+         'assumptions': ['util::limit_size returns limit_prefix (protobuf compute_size is an uninterpreted size function)',
+                         'machine integers: indexes < 2^62 (explicit requires)']},
  'C19': {'title': 'MemStorage honours the Storage contract',
          'modules': ['top', 'prelude', 'pb', 'log_unstable', 'storage_trait', 'raft_log', 'memstorage'],
          'body': ['storage_trait', 'util', 'memstorage'],
          'modes': ['P', 'S'],
          'claim': 'FULL for the single-threaded semantics (the RwLock is modelled as the protected value)',
-         'decided': ['MemStorageCore::{append, compact, apply_snapshot, commit_to, set_hardstate, set_conf_state, snapshot, first_index, last_index, '
-                     'has_entry_at, commit_to_and_set_conf_states} transform / answer the model (snapshot point + contiguous entries) exactly',
-                     'impl Storage for MemStorage: first_index/last_index/term/entries/snapshot/initial_state answer the model, with Compacted below first, '
-                     'Unavailable above last, the snapshot term at the snapshot index, entries = limit_prefix of the range (>= 1 entry for a non-empty range), '
-                     "snapshot index >= request and, at the commit index, that index's term and the stored conf state",
-                     "the impl's postconditions are checked against the Storage TRAIT contract that RaftLog (C14) is verified against"],
-         'undecided': ['concurrent use of the RwLock (no concurrency claim is made)'],
-         'bounded': ['util::limit_size: see C14'],
-         'assumptions': ['R16: Arc<RwLock<MemStorageCore>> modelled as the protected value; rl()/wl() guards dereference to it',
-                         'Vec::drain(..n)/drain(n..) with the iterator dropped = remove prefix/suffix (R9); <[T]>::to_vec copies (R9)',
-                         'indexes < 2^62, lengths < 2^32; a snapshot at index 0 has term 0']},
+         'decided': ['MemStorageCore/MemStorage keep their representation invariant and satisfy the Storage trait contract used by C14: first/last index, term '
+                     '(the term before first_index is retained after ANY compaction), entries (bounds, size limit, Compacted/Unavailable), append (overwriting '
+                     'appends truncate from the first overwritten index), compact (boundary kept, never backwards), apply_snapshot (rejects out-of-date, '
+                     'resets log and meta), commit_to, snapshot (index >= request, at the commit index)'],
+         'undecided': ['MemStorage::snapshot raising the index to the requested one (documented test behaviour) is taken as specified'],
+         'bounded': ['mon_c19: real MemStorage vs snapshot point + contiguous entries'],
+         'assumptions': ['Arc<RwLock<X>> modelled as X (R16)']},
  'C20': {'title': 'No panic or internal-check failure under contract-abiding use',
-         'modules': {'P': ['top', 'prelude', 'pb', 'inflights', 'progress', 'quorum', 'tracker', 'confchange', 'log_unstable', 'storage_trait', 'raft_log', 'memstorage'],
+         'modules': {'P': ['top',
+                           'prelude',
+                           'pb',
+                           'inflights',
+                           'progress',
+                           'quorum',
+                           'tracker',
+                           'confchange',
+                           'log_unstable',
+                           'storage_trait',
+                           'raft_log',
+                           'memstorage'],
                      'S': ['top', 'prelude', 'pb', 'inflights', 'progress', 'quorum', 'tracker', 'log_unstable', 'storage_trait', 'raft_log', 'raft']},
-         'body': {'P': ['inflights', 'progress', 'quorum', 'tracker', 'confchange', 'log_unstable', 'storage_trait', 'config', 'util', 'raft_log', 'memstorage'], 'S': []},
+         'body': {'P': ['inflights',
+                        'progress',
+                        'quorum',
+                        'tracker',
+                        'confchange',
+                        'log_unstable',
+                        'storage_trait',
+                        'config',
+                        'util',
+                        'raft_log',
+                        'memstorage'],
+                  'S': []},
          'cone': {'S': ['raft']},
          'modes': ['P', 'S'],
          'claim': 'PARTIAL',
-         'decided': ['for every function under contract (mode P: fatal!/panic!/assert!/unwrap/index/overflow sites are proof obligations) the panic sites are '
-                     "unreachable under the function's stated precondition, and every call site inside a verified function establishes its callee's "
+         'decided': ['mode P (panic sites are proof obligations): every function of inflights, progress, quorum, tracker, confchange, log_unstable, raft_log, '
+                     "util, MemStorage is panic-free under its stated precondition, and every call site inside a verified function establishes its callee's "
                      'precondition',
-                     'mode S, raft.rs: the role transitions keep what the internal checks of RawNode::ready rely on: become_follower resets the '
-                     'unpersisted-apply limit (a non-leader never hands out entries it has not persisted, so a pending snapshot excludes committed entries)'],
-         'undecided': ['that the stated preconditions hold in every reachable cluster state (needs the global invariant)',
-                       'functions not under contract (listed per module in DESIGN.md)'],
-         'assumptions': ['see C14, C18, C19']},
+                     'mode S, raft.rs / raw_node.rs: clauses the internal checks rely on: become_follower resets the unpersisted-apply limit; hup scans only '
+                     'entries that exist in the log (precondition of the scan), ignores MsgHup on a non-voter and on a lone voter with an unpersisted log; '
+                     'on_persist_entries / maybe_commit work on a leader that is no longer tracked; applied_to accepts the current applied index in the '
+                     'restart window; send accepts a pre-vote rejection at term 0; RawNode::step rejects local messages and responses from unknown peers '
+                     'without changing state'],
+         'undecided': ['that the preconditions hold in every reachable cluster state (global invariant)',
+                       'panic-freedom of the raft.rs / raw_node.rs bodies themselves (mode S assumes the abort paths away): covered only by the bounded '
+                       'monitors mon_c06 --prop C20 and mon_cluster --prop C20 in both tiers',
+                       'a reply to persisted messages stepped before on_persist_ready (become_leader assert): read as outside the Ready contract, see '
+                       'DESIGN.md A.4'],
+         'assumptions': ['mode S for raft.rs and raw_node.rs (fatal!/panic!/assert! abort; postconditions hold on normal return)',
+                         'assumed contracts (fingerprint-locked in spec/assumed.lock.json): ProgressTracker::{get_mut, record_vote, clear}, '
+                         'Configuration::to_conf_state, Raft::{new, check_quorum_active, commit_apply, has_unapplied_conf_changes}, RaftCore::try_batching, '
+                         'ReadOnly::* (abstract model of the pending-read table)',
+                         'specified helpers for std / protobuf calls (R9) and the three cut texts (R10) listed in the evidence file'],
+         'bounded': ['mon_c06 --prop C20 (RawNode driver, panics only)', 'mon_cluster --prop C20 (three nodes, lossy network, panics only)']},
  'C11': {'title': 'Quorum arithmetic: commit index and vote tallies are exact',
          'modules': ['top', 'prelude', 'pb', 'inflights', 'progress', 'quorum', 'tracker'],
          'body': ['quorum', 'tracker'],
          'modes': ['P'],
          'claim': 'FULL for the arithmetic and the heap collection path; the unsafe stack-array fast path for <= 7 voters is assumed to produce the same '
-                  'listing as the (verified) heap path, and sort_by to be a sorted permutation (R10/R9)',
-         'decided': ['util::majority(n) = n/2+1 (2r > n, 2(r-1) <= n)',
+                  'listing as the (verified) heap path, and sort_by to be a sorted permutation',
+         'decided': ['util::majority(n) = n/2+1',
                      'MajorityConfig::committed_index: empty => (u64::MAX, true); without group commit the result IS the largest index acknowledged by a '
-                     'majority of the voter set (count-based definition over the set, for every voter set and every ack assignment); with group commit the '
-                     'result never exceeds it and, when every voter has a group and the flag is returned, equals the largest index <= the quorum index '
-                     'replicated into two different groups; with a single group it is the quorum index',
-                     'MajorityConfig::vote_result equals the model (Won iff yes-set is a majority, Lost iff yes+missing cannot reach one, empty => Won) for '
-                     'every check function; JointConfig::{committed_index (min of the halves), vote_result (3x3 table), is_singleton, contains}',
-                     'ProgressTracker::{maximal_committed_index (ack = matched, group = commit_group_id), vote_result, has_quorum, is_singleton, get} as '
-                     'wrappers'],
-         'undecided': ['ProgressTracker::{tally_votes counts, record_vote, quorum_recently_active} are not under contract in this revision'],
-         'assumptions': ['R10: the unsafe MaybeUninit stack-array fill of committed_index (<= 7 voters) yields the same listing as the heap path, which is '
-                         'verified for every size (assumed; no deductive back end here can execute the unsafe code; the replay monitor mon_c11 exercises it on '
-                         'the real crate)',
-                         'R9: sort_by(descending index) is a sorted permutation',
-                         "crate::HashSet/HashMap (fxhash) behave like std's with a lawful hasher; vstd's HashSet/HashMap model",
-                         'voter sets have < 2^32 members']},
+                     'majority (count-based definition, every voter set and ack assignment); with group commit never above it and, when every voter has a '
+                     'group and the flag is returned, the largest index <= the quorum index replicated into two different groups',
+                     'MajorityConfig::vote_result equals the model (Won iff the yes-set is a majority, Lost iff yes+missing cannot reach one, empty => Won); '
+                     'JointConfig::{committed_index (min of the halves), vote_result, is_singleton, contains}; ProgressTracker::{maximal_committed_index, '
+                     'vote_result, has_quorum, tally_votes result, is_singleton, get}'],
+         'undecided': ['the yes/no counters returned by tally_votes (cut, R10); record_vote / quorum_recently_active (assumed)'],
+         'assumptions': ['R10: unsafe MaybeUninit stack array path == heap path',
+                         'sort_by is a sorted permutation',
+                         'HashMap::entry().or_insert: the first recorded vote sticks'],
+         'bounded': ['mon_c11: real tracker vs count-based definitions, 1..10 voters, joint, group commit, has_quorum over member subsets']},
  'C13': {'title': 'Replication flow control and well-formed append/heartbeat messages',
          'modules': ['top', 'prelude', 'pb', 'inflights', 'progress', 'quorum', 'tracker', 'log_unstable', 'storage_trait', 'raft_log', 'raft'],
          'body': {'P': ['inflights', 'progress'], 'S': ['inflights', 'progress']},
          'cone': {'P': ['log_unstable', 'raft_log'], 'S': ['log_unstable', 'raft', 'raft_log']},
          'modes': ['P', 'S'],
-         'claim': "PARTIAL (every per-call clause is decided; 'toward each follower over time' is carried by the representation invariants count <= cap and by "
-                  'the contracts of add/free_to, not by a history proof)',
-         'decided': ['Progress: is_paused = (Probe: paused; Replicate: window full; Snapshot: always); update_state adds exactly one in-flight index '
-                     '(Replicate, requires not full) or pauses (Probe); maybe_update / maybe_decr_to / become_* as modelled',
-                     'RaftCore::maybe_send_append: paused on entry => returns false, msgs and progress unchanged (none while a snapshot is outstanding, none '
-                     "beyond the window, none while a probe is un-acked); a pushed MsgAppend is anchored at (next_idx-1, term of that index in the leader's "
-                     'own log), carries exactly limit_prefix(log[next_idx..], max_size_per_msg) (<= max bytes unless a single entry), commit == leader commit, '
-                     'term == leader term; non-empty appends are registered in the progress (one more in-flight / probe paused)',
-                     "send_heartbeat: commit <= leader commit and <= follower's matched index",
-                     'UncommittedState: a proposal is admitted iff no limit, empty payload, nothing outstanding, or it fits; reduce never underflows',
-                     'Inflights: count <= capacity always (C18 invariant)'],
-         'undecided': ['try_batching (iter_mut over &mut [Message]) is an ASSUMED contract; with batch_append on, clauses about the batched message rely on it',
-                       "history-level 'at most N unacknowledged toward each follower over time' is not lifted from the per-call contracts"],
-         'bounded': ['try_batching: K-extracted bounded harness (thorough tier, when built)'],
-         'assumptions': ["C14's RaftLog contracts (proved there)",
-                         'RaftCore functions are verified in mode S (fatal!/panic! abort): clauses hold on every normal return']},
+         'claim': 'PARTIAL (every per-call clause; "toward each follower over time" is carried by the representation invariants count <= cap and by the '
+                  'contracts of the send path)',
+         'decided': ['Progress + Inflights state machine (pause rules, window registration, optimistic update, probe/replicate/snapshot transitions) equals '
+                     'the model; maybe_send_append sends nothing while paused, at most one message per call without batching, anchored at (next_idx-1, its '
+                     'term) with a contiguous non-empty-maximal slice within max_size_per_msg, registers the last index in the window, and sends a snapshot '
+                     'only when the entries are unavailable or one was requested (not older than requested); heartbeats advertise min(matched, committed); '
+                     'send_append / send_append_aggressively / bcast_append / bcast_heartbeat push only replication / heartbeat traffic; the uncommitted-size '
+                     'accounting (admit iff within the limit or nothing outstanding or empty payload; reset at the old tail on election; reduce on hand-out) '
+                     'equals its model'],
+         'undecided': ['the history statement over all sends to a follower'],
+         'bounded': ['K-ext Kani c13_try_batching: after try_batching every MsgAppend in the outbox is still an anchored contiguous run (outbox of 2, <= 2 new '
+                     'entries)',
+                     'mon_c14 (log reads)'],
+         'assumptions': ['mode S for raft.rs and raw_node.rs (fatal!/panic!/assert! abort; postconditions hold on normal return)',
+                         'assumed contracts (fingerprint-locked in spec/assumed.lock.json): ProgressTracker::{get_mut, record_vote, clear}, '
+                         'Configuration::to_conf_state, Raft::{new, check_quorum_active, commit_apply, has_unapplied_conf_changes}, RaftCore::try_batching, '
+                         'ReadOnly::* (abstract model of the pending-read table)',
+                         'specified helpers for std / protobuf calls (R9) and the three cut texts (R10) listed in the evidence file']},
  'C03': {'title': 'Leader completeness and the election restriction',
          'modules': ['top', 'prelude', 'pb', 'inflights', 'progress', 'quorum', 'tracker', 'log_unstable', 'storage_trait', 'raft_log', 'raft'],
          'body': {'P': ['log_unstable', 'raft_log'], 'S': ['log_unstable', 'raft_log']},
          'modes': ['P', 'S'],
-         'claim': 'PARTIAL (second sentence of the statement: the election restriction, per call)',
-         'decided': ["Raft::step: every Msg(Pre)VoteResponse with reject == false pushed while handling a (pre-)vote request implies that the candidate's "
-                     "(log_term, index) is lexicographically >= the voter's own (last_term, last_index), in every role and state; no other message type makes "
-                     'step emit a grant',
-                     'RaftLog::is_up_to_date / last_term / last_index equal the model (C14)',
-                     'maybe_commit_by_vote moves the commit index only through RaftLog::maybe_commit (term of that index must match) and keeps term and vote',
-                     "campaign / poll: every (pre-)vote request advertises the candidate's own (last_index, last_term, commit); a candidate counts only "
-                     'MsgRequestVoteResponse and a pre-candidate only MsgRequestPreVoteResponse (a response of the other kind changes nothing); the poll '
-                     'result is exactly the tally of the recorded votes (first vote of a voter sticks); state Leader is entered only from poll on Won'],
-         'undecided': ['leader completeness (first sentence): needs the cluster-wide induction over all schedules',
-                       'step_leader / step_follower are ASSUMED not to emit grants and to ignore stray vote responses (their bodies are not under contract in '
-                       'this revision)'],
-         'assumptions': ['raft.rs functions are verified in mode S (fatal!/panic! abort): clauses hold on every normal return',
-                         'assumed handler contract step_frame (term monotone, one vote per term, msgs append-only, no grants)'],
-         'cone': {'P': [], 'S': ['raft']}},
+         'claim': 'PARTIAL (the election restriction and the commit-by-vote rule, per call)',
+         'decided': ["Raft::step: a vote or pre-vote is granted only to a candidate whose (log_term, index) is at least the voter's own tail (priority "
+                     'tie-break included), in every role; no other message makes step / step_leader / step_follower / step_candidate emit a grant; campaign / '
+                     "poll: every request advertises the candidate's own (last_index, last_term, commit); a candidate counts only MsgRequestVoteResponse, a "
+                     'pre-candidate only MsgRequestPreVoteResponse for the term it asked for; the poll result is exactly the tally; Leader is entered only '
+                     'from poll on Won; maybe_commit_by_vote moves the commit index only through RaftLog::maybe_commit (term of that index must match) and '
+                     'keeps term and vote; hup does not campaign with an unapplied membership change up to the commit index'],
+         'undecided': ['leader completeness itself (cluster-wide induction)'],
+         'assumptions': ['mode S for raft.rs and raw_node.rs (fatal!/panic!/assert! abort; postconditions hold on normal return)',
+                         'assumed contracts (fingerprint-locked in spec/assumed.lock.json): ProgressTracker::{get_mut, record_vote, clear}, '
+                         'Configuration::to_conf_state, Raft::{new, check_quorum_active, commit_apply, has_unapplied_conf_changes}, RaftCore::try_batching, '
+                         'ReadOnly::* (abstract model of the pending-read table)',
+                         'specified helpers for std / protobuf calls (R9) and the three cut texts (R10) listed in the evidence file'],
+         'cone': {'P': [], 'S': ['raft']},
+         'bounded': ["mon_cluster --prop C03: committed prefixes are contained in every later leader's log; one value per applied index"]},
  'C06': {'title': 'Promises survive crashes: persist-before-send, one vote per term',
          'modules': ['top', 'prelude', 'pb', 'inflights', 'progress', 'quorum', 'tracker', 'log_unstable', 'storage_trait', 'raft_log', 'raft', 'raw_node'],
          'body': {'S': []},
          'modes': ['S'],
-         'claim': 'PARTIAL (per-call: term monotone, one vote per term, restart state; the release discipline of Ready is added with the raw_node unit)',
-         'decided': ["Raft::step: term never decreases; within a term the vote changes only from 'none' and, for vote requests, only to the requesting "
-                     'candidate of a real vote at that term',
-                     'reset/become_follower/become_candidate/become_pre_candidate: vote is cleared only together with a term change; a candidate votes for '
-                     'itself in the new term; a pre-candidate keeps term and vote',
-                     'load_state installs exactly the stored (term, vote, commit) and aborts on a commit outside [committed, last]',
-                     'RaftCore::send only fills from/term/priority and pushes exactly one message',
-                     "release discipline of ready(): a non-leader's messages are all persisted_messages(); messages released for immediate sending (leader) "
-                     'are never released in a Ready that also carries a term or vote change (finding F1, fixed in /repo)'],
-         'undecided': ["'never behind anything it has told another node' across a crash: a statement about the application's write/fsync/send order",
-                       'role handlers are assumed to satisfy step_frame'],
-         'assumptions': ['mode S', 'assumed handler contract step_frame', 'R10: the iter_mut loop of reset is assumed to reset every progress as written'],
-         'cone': {'S': ['raft', 'raw_node']}},
+         'claim': 'PARTIAL (per call: term monotone, one vote per term, restart state, release discipline of Ready)',
+         'decided': ['every handler keeps step_frame: the term never decreases, the vote changes only together with the term or from none; load_state restores '
+                     "(term, vote, commit) exactly; RawNode::ready: a non-leader's messages are persisted messages; a leader's messages are released at once "
+                     'only if neither this Ready nor an outstanding (unpersisted) one carries a new term or vote; must_sync whenever entries, a snapshot or a '
+                     'new term/vote are handed out; the record pushed for the Ready carries what on_persist_ready needs'],
+         'undecided': ['the crash-point statement over all schedules'],
+         'assumptions': ['mode S for raft.rs and raw_node.rs (fatal!/panic!/assert! abort; postconditions hold on normal return)',
+                         'assumed contracts (fingerprint-locked in spec/assumed.lock.json): ProgressTracker::{get_mut, record_vote, clear}, '
+                         'Configuration::to_conf_state, Raft::{new, check_quorum_active, commit_apply, has_unapplied_conf_changes}, RaftCore::try_batching, '
+                         'ReadOnly::* (abstract model of the pending-read table)',
+                         'specified helpers for std / protobuf calls (R9) and the three cut texts (R10) listed in the evidence file'],
+         'cone': {'S': ['raft', 'raw_node']},
+         'bounded': ['mon_c06: every message checked at release time against the durable hard state (sync + async readies)']},
  'C16': {'title': 'PreVote + CheckQuorum: a node that cannot win does not disrupt the cluster',
          'modules': ['top', 'prelude', 'pb', 'inflights', 'progress', 'quorum', 'tracker', 'log_unstable', 'storage_trait', 'raft_log', 'raft'],
          'body': {'S': []},
          'modes': ['S'],
          'claim': 'PARTIAL (first sentence and the lease rule, per call)',
-         'decided': ["Raft::step with a MsgRequestPreVote never changes the receiver's term or vote, in any state",
-                     'lease rule: a (pre-)vote request with a higher term and without the transfer context, arriving while check_quorum && a leader is known '
-                     '&& election_elapsed < election_timeout, returns Ok with NO field of the node changed and no message pushed',
-                     'become_pre_candidate keeps term and vote',
-                     'a granted pre-vote response never makes a node adopt the (future) term it carries: the term changes only for a pre-candidate (by '
-                     'winning); poll: unless the result is Won, term and vote are unchanged; campaign(PRE_ELECTION) that leaves the node a pre-candidate keeps '
-                     'term and vote'],
-         'undecided': ['non-disruption of a lock-step majority over all schedules of the minority (second sentence)',
-                       'step_leader / step_follower are assumed to ignore pre-vote responses'],
-         'assumptions': ['mode S', 'assumed handler contract step_frame'],
+         'decided': ['handling MsgRequestPreVote never changes term or vote; a granted pre-vote response never makes a node that is not a pre-candidate adopt '
+                     'its term; a pre-candidate ignores grants of another round; a vote request inside the leader lease (check_quorum, known leader, election '
+                     'timeout not elapsed, not a transfer) is ignored without any change; poll/campaign: a lost pre-vote leaves the term unchanged; '
+                     'step_leader / step_follower ignore vote responses'],
+         'undecided': ['"a healthy leader is never deposed" as a history statement'],
+         'assumptions': ['mode S for raft.rs and raw_node.rs (fatal!/panic!/assert! abort; postconditions hold on normal return)',
+                         'assumed contracts (fingerprint-locked in spec/assumed.lock.json): ProgressTracker::{get_mut, record_vote, clear}, '
+                         'Configuration::to_conf_state, Raft::{new, check_quorum_active, commit_apply, has_unapplied_conf_changes}, RaftCore::try_batching, '
+                         'ReadOnly::* (abstract model of the pending-read table)',
+                         'specified helpers for std / protobuf calls (R9) and the three cut texts (R10) listed in the evidence file'],
          'cone': {'S': ['raft']}},
  'C07': {'title': 'Ready contract: exact, ordered, persisted-only hand-off of entries',
          'modules': ['top', 'prelude', 'pb', 'inflights', 'progress', 'quorum', 'tracker', 'log_unstable', 'storage_trait', 'raft_log', 'raft', 'raw_node'],
          'body': {'P': ['log_unstable', 'raft_log'], 'S': ['log_unstable', 'raft_log', 'raw_node']},
          'modes': ['P', 'S'],
-         'claim': "PARTIAL (every per-call clause of ready/has_ready/gen_light_ready; the lifetime 'exactly once' statement is not lifted from them)",
-         'decided': ['has_ready() is true exactly when ready() would return something: both equal the same spec function of the node state',
-                     'ready(): entries = the whole unstable suffix; hs = Some(current (term, vote, commit)) iff it differs from the last one handed out; '
-                     'must_sync whenever entries, a snapshot, or a term/vote change are included; with a pending snapshot no committed entries are handed out '
-                     'and commit_since_index jumps to the snapshot index; a record (number, last entry, snapshot) is pushed',
-                     'gen_light_ready(): committed entries = limit_prefix(log[max(since+1, first) ..= min(committed, persisted + limit)], '
-                     'max_committed_size_per_ready): contiguous, starting right after commit_since_index (given first <= since+1), never beyond min(committed, '
-                     'persisted + max_apply_unpersisted_log_limit); commit_since_index advances to the last handed index; messages are moved out exactly once',
-                     'RaftLog::next_entries_since / has_next_entries_since / applied_index_upper_bound equal the model (C14)'],
-         'undecided': ["'over a node's lifetime exactly its committed log, no gap or duplicate' as a history statement (the per-call clauses chain, the "
-                       'induction is not mechanised)',
-                       'commit_ready / on_persist_ready / advance_append are not under contract in this revision',
-                       'the two asserts inside the records.drain(..) loop at the follower->leader edge (R10 cut)'],
-         'assumptions': ['raw_node.rs functions are verified in mode S', 'payload-size sums fit in usize'],
-         'cone': {'P': [], 'S': []}},
+         'claim': 'PARTIAL (every per-call clause of new/ready/has_ready/gen_light_ready/commit_ready/on_persist_ready/advance_append; the lifetime "exactly '
+                  'once" statement is not lifted from them)',
+         'decided': ['RawNode::new hands out from the configured applied index; has_ready iff ready() is non-empty; ready: entries are the unstable entries, '
+                     'hs/ss iff changed, snapshot with no committed entries, committed entries are the contiguous limit-prefix starting right after '
+                     'commit_since_index and never beyond min(committed, persisted + limit), messages moved out once; commit_ready stabilises exactly what the '
+                     'record holds and never moves persisted; on_persist_ready acknowledges the leading records <= the number and reports only what they hold; '
+                     'advance_append = commit_ready + on_persist_ready(max_number) + light ready with the commit index iff advanced'],
+         'undecided': ['exactly-once over the lifetime'],
+         'assumptions': ['mode S for raft.rs and raw_node.rs (fatal!/panic!/assert! abort; postconditions hold on normal return)',
+                         'assumed contracts (fingerprint-locked in spec/assumed.lock.json): ProgressTracker::{get_mut, record_vote, clear}, '
+                         'Configuration::to_conf_state, Raft::{new, check_quorum_active, commit_apply, has_unapplied_conf_changes}, RaftCore::try_batching, '
+                         'ReadOnly::* (abstract model of the pending-read table)',
+                         'specified helpers for std / protobuf calls (R9) and the three cut texts (R10) listed in the evidence file',
+                         'VecDeque::front/back standard semantics'],
+         'cone': {'P': [], 'S': []},
+         'bounded': []},
  'C05': {'title': 'Log matching; leaders append-only; committed prefix immutable',
          'modules': ['top', 'prelude', 'pb', 'inflights', 'progress', 'quorum', 'tracker', 'log_unstable', 'storage_trait', 'raft_log', 'raft'],
          'body': {'P': ['log_unstable', 'raft_log'], 'S': ['log_unstable', 'raft_log']},
          'modes': ['P', 'S'],
          'claim': 'PARTIAL (per node and per call: acceptance rule, truncation point, immutability of the committed prefix)',
-         'decided': ['RaftLog::maybe_append accepts iff (prev index, prev term) matches, truncates only from the first conflicting index, keeps every entry at '
-                     'or below the commit index (mode S: on every normal return with NO assumption on the message: a conflict at or below the commit index '
-                     'aborts instead of truncating), lowers persisted below the conflict, holds the new entries afterwards',
-                     "RaftLog::append / Unstable::truncate_and_append: log' = log[..after) ++ ents; nothing below the first appended index changes",
-                     'Raft::handle_append_entries: exactly one reply; accepted iff match, reply index = last new index; a rejection leaves the log unchanged '
-                     'and carries a hint (index <= min(m.index, last), term of that index <= m.log_term); the committed prefix is never altered',
-                     'find_conflict / find_conflict_by_term equal the model (C14)'],
-         'undecided': ["the pairwise statement over two nodes' logs (log matching proper)",
-                       "'a leader never removes or rewrites an entry of its own log while it leads' as a history statement (append_entry is not under contract "
-                       'in this revision)'],
-         'assumptions': ['mode S for raft.rs', 'message shape: contiguous entries with term > 0 (what peers running this library send)'],
-         'cone': {'P': [], 'S': ['raft']}},
+         'decided': ['maybe_append accepts iff (prev index, prev term) matches, truncates exactly from the first conflicting entry, never at or below the '
+                     'commit index (fatal), and leaves every entry below the conflict unchanged; handle_append_entries / handle_heartbeat / handle_snapshot '
+                     'replies carry what was accepted; append_entry stamps (term, last+1..) and only appends; become_leader appends one own-term entry; '
+                     'restore discards only when installing; the election clauses that keep one leader per term (C03.step_candidate.counts_only_own_kind)'],
+         'undecided': ['log matching between nodes (cluster statement)'],
+         'assumptions': ['mode S for raft.rs and raw_node.rs (fatal!/panic!/assert! abort; postconditions hold on normal return)',
+                         'assumed contracts (fingerprint-locked in spec/assumed.lock.json): ProgressTracker::{get_mut, record_vote, clear}, '
+                         'Configuration::to_conf_state, Raft::{new, check_quorum_active, commit_apply, has_unapplied_conf_changes}, RaftCore::try_batching, '
+                         'ReadOnly::* (abstract model of the pending-read table)',
+                         'specified helpers for std / protobuf calls (R9) and the three cut texts (R10) listed in the evidence file',
+                         'R10: the stamping loop of append_entry'],
+         'cone': {'P': [], 'S': ['raft']},
+         'bounded': ['mon_c14', 'mon_cluster --prop C05: log matching between every pair of nodes']},
  'C04': {'title': 'Commit rule: only own-term entries that are durable on a quorum',
          'modules': ['top', 'prelude', 'pb', 'inflights', 'progress', 'quorum', 'tracker', 'log_unstable', 'storage_trait', 'raft_log', 'raft', 'raw_node'],
          'body': {'P': ['quorum', 'tracker', 'log_unstable', 'raft_log'], 'S': ['quorum', 'tracker', 'log_unstable', 'raft_log']},
          'cone': {'P': ['progress'], 'S': ['progress', 'raft', 'raw_node']},
          'modes': ['P', 'S'],
-         'claim': 'PARTIAL (leader-side rule per call; follower-side bounds per call)',
-         'decided': ['Raft::maybe_commit advances the commit index only to an index <= the quorum index of the active (joint) configuration over the progress '
-                     "map's matched indexes (C11) whose entry carries the leader's current term (RaftLog::maybe_commit)",
-                     "the leader's own matched index is written only by reset (= persisted) and by on_persist_entries (to the index the log just accepted as "
-                     'persisted); maybe_persist refuses indexes at or beyond the first not-yet-written update and requires the stored term to match',
-                     'RawNode::on_persist_ready consumes exactly the leading records whose number is <= the notified one (acked_len), reports only what '
-                     'those records hold (fold_records), and changes nothing when the notice is below the oldest record; commit_ready / advance_append_async '
-                     'never move the persisted index or the progress map; advance_append acknowledges up to max_number',
-                     'follower: maybe_append / handle_append_entries never commit beyond min(leader commit, last new index); handle_heartbeat never beyond '
-                     'm.commit; heartbeats advertise commit <= matched'],
-         'undecided': ["'a non-leader's commit index never moves beyond an index some leader committed' and survival under minority crash (global)"],
-         'assumptions': ['mode S for raft.rs and raw_node.rs', 'VecDeque::front/back: standard semantics assumed (no vstd spec)', 'ProgressTracker::get_mut assumed (HashMap::get_mut has no vstd spec)', 'R10/R9 of C11']},
+         'claim': 'PARTIAL (leader-side rule per call; follower-side bounds per call; persistence notices)',
+         'decided': ['Raft::maybe_commit advances the commit index only to an index <= the quorum index of the active (joint) configuration over the matched '
+                     "indexes (C11) whose entry carries the leader's term; the leader's own matched index is written only by reset (= persisted) and by "
+                     'on_persist_entries (to the index the log just accepted as persisted); maybe_persist refuses indexes at or beyond the first unwritten '
+                     'update and requires the stored term; RawNode::on_persist_ready consumes exactly the leading records <= the notified number, changes '
+                     "nothing when none qualifies, reports only what they hold; commit_ready / advance_append_async never move persisted; a follower's "
+                     'acknowledgements are persisted messages; followers never commit beyond min(leader commit, last new index)'],
+         'undecided': ['durability on a quorum as a cluster statement'],
+         'assumptions': ['mode S for raft.rs and raw_node.rs (fatal!/panic!/assert! abort; postconditions hold on normal return)',
+                         'assumed contracts (fingerprint-locked in spec/assumed.lock.json): ProgressTracker::{get_mut, record_vote, clear}, '
+                         'Configuration::to_conf_state, Raft::{new, check_quorum_active, commit_apply, has_unapplied_conf_changes}, RaftCore::try_batching, '
+                         'ReadOnly::* (abstract model of the pending-read table)',
+                         'specified helpers for std / protobuf calls (R9) and the three cut texts (R10) listed in the evidence file',
+                         'VecDeque::front/back standard semantics'],
+         'bounded': ['mon_c04: single-voter RawNode with late / repeated / stale notices', 'mon_cluster --prop C04']},
  'C12': {'title': 'Configuration-change algebra keeps invariants and quorum overlap',
          'modules': ['top', 'prelude', 'pb', 'inflights', 'progress', 'quorum', 'tracker', 'confchange'],
          'body': ['confchange'],
          'cone': ['quorum', 'tracker'],
          'modes': ['P'],
-         'claim': 'PROOF for Changer::{simple, enter_joint, leave_joint}, ProgressTracker::apply_conf, confchange::restore (partial correctness: IF it succeeds it '
-                  'reproduces the configuration the ConfState describes) and the quorum-overlap lemmas; Configuration::to_conf_state is not under contract',
+         'claim': 'PROOF for Changer::{simple, enter_joint, leave_joint}, ProgressTracker::apply_conf, confchange::restore (partial correctness: IF it '
+                  'succeeds it reproduces the configuration the ConfState describes) and the quorum-overlap lemmas; Configuration::to_conf_state is not under '
+                  'contract',
          'decided': ['IncrChangeMap::contains: the LATEST logged change of an id decides (icm_dom); check_invariants returns Ok IFF cfg_checked (the stated '
                      'disjointness / staging / tracking conditions), for every configuration and change log',
                      'Changer::apply is the left fold of the reference step function sp_apply_one over the change list and rejects exactly the results without '
@@ -241,81 +267,90 @@ PROPS = {'C18': {'title': 'Inflights window is a bounded FIFO under resizing',
                      'tracker (the methods take &self / return new values: checked by the borrow discipline)',
                      'ProgressTracker::apply_conf installs the configuration and the progress-map domain becomes icm_dom(changes); untouched entries keep '
                      'their Progress',
-                     'confchange::to_conf_change_single produces exactly the two stated change lists; confchange::restore from an empty tracker and a consistent ConfState '
-                     '(sets disjoint / staged inside outgoing, no id 0): if it returns Ok the tracker configuration equals the five sets of the ConfState (auto_leave '
-                     'included) and progress is tracked for exactly its members (replay lemmas over the reference step function, four phases)',
+                     'confchange::to_conf_change_single produces exactly the two stated change lists; confchange::restore from an empty tracker and a '
+                     'consistent ConfState (sets disjoint / staged inside outgoing, no id 0): if it returns Ok the tracker configuration equals the five sets '
+                     'of the ConfState (auto_leave included) and progress is tracked for exactly its members (replay lemmas over the reference step function, '
+                     'four phases)',
                      'lemma_c12_{simple,enter_joint,leave_joint}_overlap: a deciding set (strict majority of incoming, and of outgoing when joint) before the '
                      'change shares a voter with any deciding set after it, for the result shapes the three contracts establish'],
-         'undecided': ['that restore never FAILS on the ConfState of a reachable configuration, and Configuration::to_conf_state itself (HashSet -> Vec collect): only the bounded '
-                       'monitor mon_c12 exercises the full round trip through Raft::new',
+         'undecided': ['that restore never FAILS on the ConfState of a reachable configuration, and Configuration::to_conf_state itself (HashSet -> Vec '
+                       'collect): only the bounded monitor mon_c12 exercises the full round trip through Raft::new',
                        'that callers (Raft::apply_conf_change) only pass configurations satisfying cfg_inv (needs the invariant over the whole run)'],
          'assumptions': ['std iterator adapters rfind / extend / drain / symmetric_difference().count() / Union::iter as specified helpers (R9)',
-                         'derive(Clone) of tracker::Configuration copies the sets (R9)', 'protobuf ConfChangeSingle / ConfChangeType stubs']},
+                         'derive(Clone) of tracker::Configuration copies the sets (R9)',
+                         'protobuf ConfChangeSingle / ConfChangeType stubs']},
  'C15': {'title': 'Snapshot install and log compaction preserve state and safety',
          'modules': ['top', 'prelude', 'pb', 'inflights', 'progress', 'quorum', 'tracker', 'log_unstable', 'storage_trait', 'raft_log', 'raft'],
          'body': {'P': ['log_unstable', 'raft_log', 'progress'], 'S': ['log_unstable', 'raft_log', 'progress']},
          'modes': ['P', 'S'],
-         'claim': 'PARTIAL (install decision, log/commit effect, leader-side send/resume rules; configuration rebuild is assumed until the membership unit)',
-         'decided': ['Raft::restore: returns false with nothing changed if the snapshot is behind the commit index or does not list the node; if (index, term) '
-                     'matches the log and no snapshot was requested it only commits up to the index and discards nothing; otherwise RaftLog::restore: commit = '
-                     'index, boundary term = snapshot term, later appends continue at index+1, pending request cleared',
-                     'RaftLog::restore / Unstable::restore equal the model; persisted is lowered to the old commit index',
-                     'leader: maybe_send_append sends MsgSnapshot only if the follower asked for one or the term/entries it needs are unavailable, and then '
-                     'moves the progress to Snapshot(index); become_probe after a snapshot resumes at max(matched, pending_snapshot)+1'],
-         'undecided': ["equality of application state; 'compaction changes no other guarantee'",
-                       'the configuration rebuilt from the snapshot (confchange::restore, post_conf_change) is an assumed contract in this revision',
-                       'handle_snapshot_status / handle_append_response are not under contract in this revision'],
-         'assumptions': ['mode S for raft.rs', 'R9: the iterator chain membership test of Raft::restore; R10: its untested tail'],
-         'cone': {'P': [], 'S': ['raft']}},
+         'claim': 'PARTIAL (install decision, log/commit effect, request rule, leader-side send/resume rules)',
+         'decided': ['Raft::restore: ignores a snapshot behind the commit or applied index or not listing the node; a snapshot that matches the log and is not '
+                     'the requested one (none pending, or older than requested) only advances the commit index and discards nothing; otherwise '
+                     'RaftLog::restore: commit = index, boundary term = snapshot term, appends continue at index+1; request_snapshot asks for the whole log '
+                     '(last index) and changes nothing when dropped; prepare_send_snapshot never sends older than requested; handle_snapshot_status / '
+                     'handle_append_response resume replication after the snapshot index; the configuration is rebuilt by confchange::restore (C12)'],
+         'undecided': ['application state equality (outside the library)'],
+         'assumptions': ['mode S for raft.rs and raw_node.rs (fatal!/panic!/assert! abort; postconditions hold on normal return)',
+                         'assumed contracts (fingerprint-locked in spec/assumed.lock.json): ProgressTracker::{get_mut, record_vote, clear}, '
+                         'Configuration::to_conf_state, Raft::{new, check_quorum_active, commit_apply, has_unapplied_conf_changes}, RaftCore::try_batching, '
+                         'ReadOnly::* (abstract model of the pending-read table)',
+                         'specified helpers for std / protobuf calls (R9) and the three cut texts (R10) listed in the evidence file'],
+         'cone': {'P': [], 'S': ['raft']},
+         'bounded': []},
  'C09': {'title': 'Membership changes: one at a time, config is a function of applied log',
          'modules': ['top', 'prelude', 'pb', 'inflights', 'progress', 'quorum', 'tracker', 'log_unstable', 'storage_trait', 'raft_log', 'raft'],
          'body': {'S': []},
          'modes': ['S'],
-         'claim': 'PARTIAL (election-side clauses only in this revision: (b) and (d) of DESIGN.md section 5/C09)',
-         'decided': ['hup: a leader ignores it; no campaign starts while a committed membership change is unapplied (the range (applied or pending snapshot, '
-                     'committed] holds a conf-change entry): the node is left completely unchanged',
-                     'tick_election never steps MsgHup when the node is not promotable (only election_elapsed changes) or before the randomized timeout',
-                     'become_leader conservatively sets pending_conf_index to the last index of its log and appends exactly one entry of its own term'],
-         'undecided': ["the proposal filter of step_leader/MsgPropose, commit_apply's auto-leave proposal, apply_conf_change/post_conf_change (promotable = "
-                       'voter) and the function-of-applied-log statement are not under contract in this revision',
-                       "'a leader's log never holds more than one unapplied membership entry' across leader changes (cluster-level)"],
-         'assumptions': ['mode S',
-                         'has_unapplied_conf_changes is an ASSUMED contract (RaftLog::scan takes an FnMut): it reports exactly whether the range holds a '
-                         'conf-change entry'],
-         'cone': {'S': ['raft']}},
+         'claim': 'PARTIAL ((a) one membership change at a time, (b) no election with an unapplied change, (d) non-voters never campaign; (c) configuration as '
+                  'a function of the applied log only through C12)',
+         'decided': ['the proposal filter (real loop, un-cut): at most one membership-change entry of a proposal is kept, none if one is pending; a kept '
+                     'change fits the configuration (leave iff joint, classified as it will be applied); a refused one becomes an empty normal entry; '
+                     'pending_conf_index is the index of the kept one; become_leader sets pending_conf_index to the last index; hup: a leader, a non-voter, a '
+                     'node with an unapplied change ignore it; tick_election / MsgTimeoutNow need promotable; post_conf_change recomputes promotable from the '
+                     "configuration and returns the configuration's ConfState"],
+         'undecided': ['identical configurations at equal applied index across nodes (history statement)'],
+         'assumptions': ['mode S for raft.rs and raw_node.rs (fatal!/panic!/assert! abort; postconditions hold on normal return)',
+                         'assumed contracts (fingerprint-locked in spec/assumed.lock.json): ProgressTracker::{get_mut, record_vote, clear}, '
+                         'Configuration::to_conf_state, Raft::{new, check_quorum_active, commit_apply, has_unapplied_conf_changes}, RaftCore::try_batching, '
+                         'ReadOnly::* (abstract model of the pending-read table)',
+                         'specified helpers for std / protobuf calls (R9) and the three cut texts (R10) listed in the evidence file',
+                         'protobuf decoding of proposed membership changes (uninterpreted)'],
+         'cone': {'S': ['raft']},
+         'bounded': ['K-ext Kani c09_has_unapplied_conf_changes: real text of RaftLog::scan + has_unapplied_conf_changes, logs <= 3 entries, every page '
+                     'split']},
  'C17': {'title': 'Leadership transfer hands off safely and never wedges the leader',
          'modules': ['top', 'prelude', 'pb', 'inflights', 'progress', 'quorum', 'tracker', 'log_unstable', 'storage_trait', 'raft_log', 'raft'],
          'body': {'S': []},
          'modes': ['S'],
          'claim': 'PARTIAL (every leader-side per-call clause; the healthy-cluster completion sentence is not decided)',
-         'decided': ["MsgTimeoutNow is pushed only by handle_transfer_leader and by the tail of handle_append_response, and only when the target's matched "
-                     "index equals the leader's last index (and, in handle_append_response, the response came from the pending transfer target and was not a "
-                     'rejection)',
-                     'step_leader/MsgPropose with a pending transfer returns ProposalDropped with the node completely unchanged',
-                     'handle_transfer_leader: a request naming an untracked id or a learner changes nothing; naming the leader itself changes at most '
-                     'lead_transferee (to None); a repeated request for the pending target changes nothing; a new target is recorded and the election clock '
-                     'restarts',
-                     'tick_heartbeat clears the transfer when election_elapsed reaches election_timeout (if the node is still leader); no tick starts a '
-                     'transfer; reset / become_follower / become_leader clear it'],
-         'undecided': ["'when a transfer completes in a healthy cluster the target leads a higher term ... old leader follows' (multi-node, "
-                       'liveness-flavoured)',
-                       'post_conf_change aborting the transfer when the target leaves the voters is an assumed contract in this revision'],
-         'assumptions': ['mode S', 'assumed contracts: bcast_append, bcast_heartbeat, check_quorum_active, ProgressTracker::get_mut'],
-         'cone': {'S': ['raft']}},
+         'decided': ["MsgTimeoutNow is sent only to the pending target once its matched index equals the leader's last index (handle_append_response, "
+                     'handle_transfer_leader); a request naming a learner or unknown node is ignored, the same target is a no-op, the leader itself only '
+                     'cancels; while pending, proposals are dropped; tick_heartbeat abandons the transfer after one election timeout (also with check_quorum); '
+                     'post_conf_change abandons it when the target leaves the voters (also when the leader leaves them too); become_follower / reset / '
+                     'become_leader clear it'],
+         'undecided': ['completion in a healthy cluster'],
+         'assumptions': ['mode S for raft.rs and raw_node.rs (fatal!/panic!/assert! abort; postconditions hold on normal return)',
+                         'assumed contracts (fingerprint-locked in spec/assumed.lock.json): ProgressTracker::{get_mut, record_vote, clear}, '
+                         'Configuration::to_conf_state, Raft::{new, check_quorum_active, commit_apply, has_unapplied_conf_changes}, RaftCore::try_batching, '
+                         'ReadOnly::* (abstract model of the pending-read table)',
+                         'specified helpers for std / protobuf calls (R9) and the three cut texts (R10) listed in the evidence file'],
+         'cone': {'S': ['raft']},
+         'bounded': []},
  'C08': {'title': 'ReadIndex (Safe mode) is linearizable',
          'modules': ['top', 'prelude', 'pb', 'inflights', 'progress', 'quorum', 'tracker', 'log_unstable', 'storage_trait', 'raft_log', 'raft'],
          'body': {'S': []},
          'cone': {'S': ['quorum', 'raft', 'tracker']},
          'modes': ['S'],
          'claim': 'PARTIAL (leader- and requester-side per-call clauses over an abstract model of the pending-read table)',
-         'decided': ["step_leader/MsgReadIndex: dropped with nothing changed unless the entry at the commit index carries the leader's own term",
-                     'handle_heartbeat_response releases read states (locally or as MsgReadIndexResp) only in Safe mode, for a non-empty context that is '
-                     'pending, and only if the ack set of that context including the responder contains a majority of each voter set (has_quorum, C11)',
-                     'handle_ready_read_index: a request that originated locally (from == 0 or self) becomes a ReadState with the given index; any other '
-                     'request is answered by a MsgReadIndexResp to req.from only, carrying that index',
-                     'reset drops all pending reads'],
-         'undecided': ['the index is >= every commit index reached anywhere at request time; the stale-leader clause (both need leader completeness + '
-                       'real-time order)',
-                       'ReadOnly::{add_request, recv_ack, advance} are ASSUMED contracts over an abstract model (HashMap keyed by Vec<u8> has no key model in '
-                       'vstd)'],
-         'assumptions': ['mode S', 'abstract ReadOnly model (spec/raft.vrs read_only_types)']}}
+         'decided': ['step_leader: a read is dropped until the leader committed in its term; answered at once only if the leader is the sole voter; otherwise '
+                     'recorded with the current commit index and a heartbeat round tagged with its context; handle_heartbeat_response / post_conf_change '
+                     'release reads only after a quorum of the active configuration acknowledged the context, and only the queue prefix up to it; '
+                     'handle_ready_read_index routes the answer to the origin; step_follower forwards reads to the leader and records MsgReadIndexResp on the '
+                     'requester; reset drops pending reads'],
+         'undecided': ['linearizability over all schedules'],
+         'assumptions': ['mode S for raft.rs and raw_node.rs (fatal!/panic!/assert! abort; postconditions hold on normal return)',
+                         'assumed contracts (fingerprint-locked in spec/assumed.lock.json): ProgressTracker::{get_mut, record_vote, clear}, '
+                         'Configuration::to_conf_state, Raft::{new, check_quorum_active, commit_apply, has_unapplied_conf_changes}, RaftCore::try_batching, '
+                         'ReadOnly::* (abstract model of the pending-read table)',
+                         'specified helpers for std / protobuf calls (R9) and the three cut texts (R10) listed in the evidence file'],
+         'bounded': ['mon_cluster --prop C08: every ReadState on the issuing node with index >= the highest commit index at issue time']}}
